@@ -5,7 +5,7 @@ use super::PropDef;
 use crate::dna::{fnv64, hex_trunc, Dna};
 use crate::engine::*;
 use crate::gen_comp::{gen_comp_family, Family};
-use crate::gen_plain::gen_plain_sized;
+use crate::gen_plain::gen_plain_sized_labeled;
 use serde_json::{json, Value};
 use std::cell::RefCell;
 use std::collections::BTreeMap;
@@ -13,14 +13,17 @@ use std::collections::BTreeMap;
 pub static DEF: PropDef = PropDef {
     id: "C09",
     level: "exploration",
-    rule: "sample: structured random plaintexts (2..160 KiB: text-like, mixed, runs, archive-like with stored blobs) x compressor grid, stratified per \
-family: zlib (levels 0-9 x 5 strategies x windowBits 9-15 x memLevel 1-9), zlib-ng 1-9, libdeflate 0-12, miniz_oxide 0-10. \
-Oracle (aggregate, differential against the frozen reference build linked into the same process), per family: \
-accepted_current >= 0.99 x accepted_reference and, over the streams both accept, sum |corrections_current| <= 1.03 x \
-sum |corrections_reference|. Deterministic for a given seed. Non-trivial = both builds accept and the stream contains \
-references; distinct = hash of the stream.",
+    rule: "sample: structured random plaintexts (2..160 KiB: text-like, mixed, runs, archive-like with stored blobs, steep \
+(Fibonacci-like) byte statistics) x compressor grid: zlib (levels 0-9 x 5 strategies x windowBits 9-15 x memLevel 1-9; 6 % of \
+the zlib cases are Z_HUFFMAN_ONLY / Z_RLE streams over units exactly one block long whose optimal code is deeper than 15 bits), \
+zlib-ng 1-9, libdeflate 0-12, miniz_oxide 0-10. Oracle (aggregate, differential against the frozen reference build linked \
+into the same process), per family and per stratum family x plaintext flavour (a stratum is judged only if it has at least \
+100 commonly accepted streams and 20 000 reference correction bytes; the flavour is fixed by the generator before either \
+build sees the stream): accepted_current >= 0.99 x accepted_reference and, over the streams both accept, \
+sum |corrections_current| <= 1.03 x sum |corrections_reference|. Deterministic for a given seed. Non-trivial = both builds \
+accept and the stream contains references; distinct = hash of the stream.",
     assumptions: &[
-        "the measure is an aggregate over this generator's input distribution; regressions below 1% / 3% of it pass",
+        "the measure is an aggregate over this generator's input distribution and its strata; regressions below 1% / 3% of every judged stratum pass",
         "reference = /verif/reference/preflate-ref (pinned release + recorded fixes)",
     ],
     worker,
@@ -88,7 +91,24 @@ fn eval_one(d: &[u8], desc: &str, fam: &mut Fam, ctx: &mut Ctx) {
     }
 }
 
-fn gen_case(dna: &mut Dna, family: &Family) -> (Vec<u8>, String) {
+fn gen_case(dna: &mut Dna, family: &Family) -> (Vec<u8>, String, &'static str) {
+    if matches!(family, Family::Zlib) && dna.chance(6) {
+        // blocks whose optimal prefix code is deeper than the format allows (see
+        // gen_block_aligned_steep): zlib's length limiting step has to be modelled
+        let mem_level = [5u32, 6, 7, 7, 7, 8, 8, 8, 8, 9, 9][dna.below(11)];
+        let plain = crate::gen_plain::gen_block_aligned_steep(dna, mem_level);
+        let cfg = crate::gen_comp::ZCfg {
+            level: dna.range(1, 9) as i32,
+            strategy: [2, 2, 2, 2, 2, 2, 2, 2, 2, 3][dna.below(10)],
+            window_bits: if dna.chance(50) { 15 } else { dna.range(9, 15) as i32 },
+            mem_level: mem_level as i32,
+            flushes: vec![],
+            params_switch: None,
+        };
+        let d = crate::gen_comp::zlib_deflate_raw(&plain, &cfg)
+            .unwrap_or_else(|| crate::gen_comp::zlib_deflate_raw(&plain, &crate::gen_comp::ZCfg::simple(6)).expect("zlib default"));
+        return (d, format!("zlib {} plain={} (block-aligned-steep)", cfg.describe(), plain.len()), "block-aligned-steep");
+    }
     let size = match dna.weighted(&[380, 380, 160, 72, 8]) {
         0 => dna.range(2 * 1024, 8 * 1024),
         1 => dna.range(8 * 1024, 32 * 1024),
@@ -97,9 +117,9 @@ fn gen_case(dna: &mut Dna, family: &Family) -> (Vec<u8>, String) {
         // long documents: with memLevel 1-2 these have well over a thousand blocks
         _ => dna.range(400 * 1024, 1200 * 1024),
     };
-    let plain = gen_plain_sized(dna, size);
+    let (plain, flavour) = gen_plain_sized_labeled(dna, size);
     let (d, desc) = gen_comp_family(dna, &plain, family);
-    (d, format!("{} plain={}", desc, plain.len()))
+    (d, format!("{} plain={} ({})", desc, plain.len(), flavour), flavour)
 }
 
 fn cases_for(tier: Tier) -> u64 {
@@ -109,9 +129,14 @@ fn cases_for(tier: Tier) -> u64 {
     }
 }
 
-/// runs this shard's cases; `only` restricts evaluation to one family (replay)
-fn run_shard(ctx: &mut Ctx, only: Option<usize>) -> Vec<Fam> {
-    let fams = RefCell::new(vec![Fam::default(); 4]);
+/// runs this shard's cases; `only` restricts evaluation to one family (replay). Totals are kept
+/// per family and per stratum "family|plaintext flavour" (the flavour is fixed by the generator
+/// before either build sees the stream).
+fn run_shard(ctx: &mut Ctx, only: Option<usize>) -> BTreeMap<String, Fam> {
+    let fams: RefCell<BTreeMap<String, Fam>> = RefCell::new(BTreeMap::new());
+    for f in FAMILIES.iter() {
+        fams.borrow_mut().insert(f.name().to_string(), Fam::default());
+    }
     let counter = RefCell::new(0usize);
     let run = DnaRun {
         cases: ctx.cfg.share(cases_for(ctx.cfg.tier)),
@@ -131,27 +156,57 @@ fn run_shard(ctx: &mut Ctx, only: Option<usize>) -> Vec<Fam> {
             }
         }
         let mut dna = Dna::new(dna_bytes);
-        let (d, desc) = gen_case(&mut dna, &FAMILIES[idx]);
+        let (d, desc, flavour) = gen_case(&mut dna, &FAMILIES[idx]);
         ctx.set_inflight(&json!({"kind":"c09-stream","hex":crate::dna::hex(&d)}));
         ctx.class(&format!("family:{}", FAMILIES[idx].name()));
+        ctx.class(&format!("plaintext:{}", flavour));
         let mut f = fams.borrow_mut();
-        eval_one(&d, &desc, &mut f[idx], ctx);
+        let mut one = Fam::default();
+        eval_one(&d, &desc, &mut one, ctx);
+        add_into(f.get_mut(FAMILIES[idx].name()).unwrap(), &one);
+        add_into(f.entry(format!("{}|{}", FAMILIES[idx].name(), flavour)).or_default(), &one);
         ctx.sample(|| sample_bytes(&desc, &d, json!({"family": FAMILIES[idx].name()})));
         Ok(())
     });
     fams.into_inner()
 }
 
+fn add_into(t: &mut Fam, f: &Fam) {
+    t.n += f.n;
+    t.acc_ref += f.acc_ref;
+    t.acc_cur += f.acc_cur;
+    t.both += f.both;
+    t.corr_ref += f.corr_ref;
+    t.corr_cur += f.corr_cur;
+    t.worst.extend(f.worst.iter().cloned());
+    t.worst.sort_by(|a, b| b.0.cmp(&a.0));
+    t.worst.truncate(5);
+    for l in f.lost.iter() {
+        if t.lost.len() < 5 {
+            t.lost.push(l.clone());
+        }
+    }
+}
+
 fn worker(ctx: &mut Ctx) {
     let fams = run_shard(ctx, None);
     let mut m = serde_json::Map::new();
-    for (i, f) in fams.iter().enumerate() {
-        m.insert(FAMILIES[i].name().to_string(), f.to_json());
+    for (name, f) in fams.iter() {
+        m.insert(name.clone(), f.to_json());
     }
     ctx.extra.insert("c09_shard".into(), Value::Object(m));
 }
 
+/// a stratum (family|flavour) is judged only when it carries enough mass for a ratio to mean
+/// something: at least 100 streams both builds accept and 20 000 reference correction bytes
+fn judged(name: &str, f: &Fam) -> bool {
+    !name.contains('|') || (f.both >= 100 && f.corr_ref >= 20_000)
+}
+
 fn verdict(name: &str, f: &Fam) -> Option<Failure> {
+    if !judged(name, f) {
+        return None;
+    }
     if (f.acc_cur as f64) < 0.99 * f.acc_ref as f64 {
         return Some(Failure::new(
             "C09",
@@ -225,7 +280,7 @@ fn aggregate(extra: &BTreeMap<String, Vec<Value>>, cfg: &RunCfg) -> (Vec<(Failur
         }
     }
     let mut summary = serde_json::Map::new();
-    for (name, f) in merged.iter() {
+    for (name, f) in merged.iter().filter(|(n, f)| judged(n, f)) {
         summary.insert(
             name.clone(),
             json!({"streams": f.n, "accepted_reference": f.acc_ref, "accepted_current": f.acc_cur, "both_accept": f.both,
@@ -247,7 +302,8 @@ fn replay(doc: &Value, ctx: &mut Ctx) -> Result<(), Failure> {
         }
         return Ok(());
     }
-    let family = doc["family"].as_str().unwrap_or("");
+    let key = doc["family"].as_str().unwrap_or("").to_string();
+    let family = key.split('|').next().unwrap_or("");
     let idx = FAMILIES.iter().position(|f| f.name() == family).ok_or_else(|| {
         Failure::new("C09", "harness", "bad-replay-doc", "unknown family".into())
     })?;
@@ -260,21 +316,12 @@ fn replay(doc: &Value, ctx: &mut Ctx) -> Result<(), Failure> {
         let mut sub = Ctx::new("C09", RunCfg { tier, seed, shard, nshards, scale });
         sub.counting = true;
         let fams = run_shard(&mut sub, Some(idx));
-        let f = &fams[idx];
-        total.n += f.n;
-        total.acc_ref += f.acc_ref;
-        total.acc_cur += f.acc_cur;
-        total.both += f.both;
-        total.corr_ref += f.corr_ref;
-        total.corr_cur += f.corr_cur;
-        total.worst.extend(f.worst.iter().cloned());
-        total.lost.extend(f.lost.iter().cloned());
-        ctx.evals(f.n);
+        if let Some(f) = fams.get(&key) {
+            add_into(&mut total, f);
+            ctx.evals(f.n);
+        }
     }
-    total.worst.sort_by(|a, b| b.0.cmp(&a.0));
-    total.worst.truncate(5);
-    total.lost.truncate(5);
-    match verdict(family, &total) {
+    match verdict(&key, &total) {
         Some(f) => Err(f),
         None => Ok(()),
     }
